@@ -152,6 +152,70 @@ mod c01 {
         fn write_canon(&self, _key: &mut CryptoSensitive<PKC_CANON_SECRET_KEY_LEN>) -> Result<(), Error> { unimplemented!() }
     }
 
+    /// The DECISION of `validate_peer_tbs_signature` alone: with the signed structure built from fixed bytes (the
+    /// writer then costs nothing; what the structure contains is the subject of the harness below, which does not
+    /// close), the call is `Ok` exactly when the NOC yields a public key, the key imports and the primitive says
+    /// "verified" - for every outcome of the three.
+    // TIER: quick
+    // KIND: complete (decision over every outcome of pubkey / import / verify; certificate and key bytes fixed, they do not influence the decision)
+    #[kani::proof]
+    #[kani::unwind(67)]
+    #[kani::stub(crate::cert::CertRef::pubkey, crate::cert::verif_kani::c19::pf_pubkey)]
+    fn c01_validate_peer_tbs_signature_decision() {
+        let noc = [0x11u8; CERT_LEN];
+        let icac = [0x22u8; CERT_LEN];
+        let with_icac: bool = kani::any();
+        let peer_key = [0x33u8; PKC_CANON_PUBLIC_KEY_LEN];
+        let our_key = [0x44u8; PKC_CANON_PUBLIC_KEY_LEN];
+        let signature = [0x55u8; PKC_SIGNATURE_LEN];
+        let mut noc_pf = [0x66u8; 65];
+        noc_pf[42] = kani::any();
+        let noc_cert = CertRef::new(TLVElement::new(&noc_pf));
+
+        let crypto = MockCrypto {
+            import_ok: kani::any(),
+            verdict: kani::any(),
+            expect: Expect { noc, icac: if with_icac { Some(icac) } else { None }, peer_key, our_key, signature },
+            imports: Cell::new(0),
+            imported: Cell::new([0; PKC_CANON_PUBLIC_KEY_LEN]),
+            verifies: Cell::new(0),
+            tbs_as_expected: Cell::new(false),
+            signature_as_given: Cell::new(false),
+        };
+
+        let mut case = CaseP::<MockCrypto>::new();
+        case.peer_pub_key = CanonPkcPublicKey::from(peer_key);
+        case.our_pub_key = CanonPkcPublicKey::from(our_key);
+        let mut big = [0u8; 192];
+        let tmp: &mut [u8] = &mut big[..];
+
+        let r = case.validate_peer_tbs_signature(
+            &crypto,
+            &noc,
+            if with_icac { Some(&icac[..]) } else { None },
+            &noc_cert,
+            CanonPkcSignatureRef::new(&signature),
+            tmp,
+        );
+        let ok = r.is_ok();
+
+        let key_ok = noc_pf[42] > 1;
+        kani::assert(
+            ok == (key_ok && crypto.import_ok && crypto.verdict == Some(true)),
+            "C01.tbs_signature.ok_iff_primitive_verified"
+        );
+        kani::assert(!ok || (crypto.verifies.get() == 1 && crypto.verdict == Some(true)), "C01.tbs_signature.ok_implies_verify_returned_true");
+        kani::assert(!ok || crypto.imports.get() == 1, "C01.tbs_signature.checked_under_an_imported_key");
+        kani::assert(!ok || crypto.signature_as_given.get(), "C01.tbs_signature.the_given_signature_is_checked");
+        if key_ok && crypto.import_ok && crypto.verdict == Some(false) {
+            kani::assert(matches!(&r, Err(e) if e.code() == ErrorCode::Invalid), "C01.tbs_signature.bad_signature_is_invalid");
+        }
+        kani::cover!(ok && with_icac, "accepted with ICAC");
+        kani::cover!(ok && !with_icac, "accepted without ICAC");
+        kani::cover!(!ok && crypto.verdict == Some(false) && crypto.verifies.get() == 1, "wrong signature refused");
+        kani::cover!(!ok && !key_ok, "NOC without usable public key refused");
+    }
+
     // NOT REGISTERED - DOES NOT CLOSE: the byte-by-byte TLV writer (`TLVWrite::write_raw_data`, ~150 checked writes)
     // exhausts 12 GB in CBMC's propositional reduction at the unwinding the 65-byte keys need (67). The harness is
     // kept for a machine with more memory; it is compiled only with `--cfg verif_c01_tbs`.
